@@ -46,8 +46,10 @@ def main():
     res = {"repo_head": head[:10]}
     try:
         basefile = "/tmp/confirm/baseline-%s.txt" % head[:10]
-        if not os.path.exists(basefile):
-            open(basefile, "w").write(test_summary(wt))
+        if not os.path.exists(basefile) or os.path.getsize(basefile) < 200:
+            tmpf = basefile + ".%d" % os.getpid()
+            open(tmpf, "w").write(test_summary(wt))
+            os.replace(tmpf, basefile)
         base = open(basefile).read()
         rc, out = sh("git apply --check %s && git apply %s" % (patch, patch), wt)
         res["applies"] = rc == 0
